@@ -63,7 +63,16 @@ def build(flavour="ship", quiet=True):
     out = os.path.join(bootstrap.VERIF_ROOT, ".build", "nvx-%s-%s" % (flavour, source_digest(flavour)))
     marker = os.path.join(out, "BUILD_OK")
     if os.path.exists(marker):
+        try:
+            os.utime(marker, None)        # mark as in use (pruning is by age)
+            os.utime(out, None)
+        except OSError:
+            pass
         return out
+    # concurrent checks / self-tests build the same digest: build into a private directory and publish it with
+    # one atomic rename, so nobody ever sees (or removes) a half-built directory
+    final = out
+    out = "%s.tmp.%d" % (final, os.getpid())
     if os.path.isdir(out):
         shutil.rmtree(out)
     os.makedirs(out)
@@ -71,7 +80,7 @@ def build(flavour="ship", quiet=True):
     # self-test runs (VERIF_REPO_SRC=scratch copy) build concurrently with checks of /repo
     parent = os.path.dirname(out)
     olds = sorted((os.path.getmtime(os.path.join(parent, n)), n) for n in os.listdir(parent)
-                  if n.startswith("nvx-%s-" % flavour) and os.path.join(parent, n) != out)
+                  if n.startswith("nvx-%s-" % flavour) and ".tmp." not in n and os.path.join(parent, n) != final)
     import time as _time
     for mt, n in olds[:-80]:
         if _time.time() - mt > 6 * 3600:      # never remove a build a concurrent run may still be using
@@ -114,9 +123,16 @@ ffi.compile(tmpdir=out, verbose=False)
                 os.remove(os.path.join(out, n))
             except OSError:
                 pass
-    with open(marker, "w") as f:
+    with open(os.path.join(out, "BUILD_OK"), "w") as f:
         f.write("ok\n")
-    return out
+    try:
+        os.rename(out, final)
+    except OSError:
+        # somebody else published the same build meanwhile
+        shutil.rmtree(out, ignore_errors=True)
+        if not os.path.exists(marker):
+            raise
+    return final
 
 
 def worker_env(flavour):
